@@ -13,14 +13,14 @@ PID = "C06"
 
 def injection_part(ck, tier, rng):
     icases, _ = c07.s_part(ck, tier, rng)
-    iterms = [slevel.render_sim_case(c["cfg"], c["devs"], (1, 1), 0, [], 1_300_000_003, c["run"]) for c in icases]
+    iterms = [slevel.render_sim_case(c["cfg"], c["devs"], (1, 1), c.get("initial", 0), [], 1_300_000_003, c["run"]) for c in icases]
     ibad = run_shards(PID + "_i", sprops.HEADER, "sim_case", "oracle_c06", iterms, shard_size=60)
     ck.coverage["injection_sweep_runs_judged_by_the_callback_oracle"] = len(icases)
     for i in sorted(ibad):
         c = icases[i]
         ck.report(sprops.REASONS[65], f"interrupt of device c{c['device']} injected at loop step {c['step']} ({c['name']}): a callback "
                   "requested by a device is not served afterwards",
-                  dict(kind="injection", cfg={str(k): v for k, v in c["cfg"].items()}, devs={str(k): v for k, v in c["devs"].items()},
+                  dict(kind="injection", initial=c.get("initial", 0), cfg={str(k): v for k, v in c["cfg"].items()}, devs={str(k): v for k, v in c["devs"].items()},
                        device=c["device"], step=c["step"], inj=c["inj"], ticklog=c["run"]["ticklog"][-12:], codes=ibad[i],
                        observed={str(k): [t for t, _ in v] for k, v in c["run"]["per"].items()}))
         break
@@ -36,8 +36,8 @@ def replay(rp):
     if rp.get("kind") == "injection":
         cfg = {int(k): dict(order=[(c, kk) for c, kk in v["order"]], conns=[tuple(x) for x in v["conns"]]) for k, v in rp["cfg"].items()}
         devs = {int(k): tuple(v) for k, v in rp["devs"].items()}
-        r = slevel.run_internal(cfg, devs, (1, 1), 0, [], 1_300_000_003, inject=(rp["step"], rp["device"]))
-        bad = run_shards("replay", sprops.HEADER, "sim_case", "oracle_c06", [slevel.render_sim_case(cfg, devs, (1, 1), 0, [], 1_300_000_003, r)])
+        r = slevel.run_internal(cfg, devs, (1, 1), rp.get("initial", 0), [], 1_300_000_003, inject=(rp["step"], rp["device"]))
+        bad = run_shards("replay", sprops.HEADER, "sim_case", "oracle_c06", [slevel.render_sim_case(cfg, devs, (1, 1), rp.get("initial", 0), [], 1_300_000_003, r)])
         print("injection", rp["device"], "at step", rp["step"], "updates:", {k: [t for t, _ in v] for k, v in r["per"].items()})
         print("codes:", bad.get(0, []))
         return 1 if bad else 0
